@@ -4,7 +4,10 @@ N_THOROUGH = 12000
 MODEL_SHOW = "run_s"
 DISAGREE_IS_VIOLATION = True   # observables are exactly what the property fixes
 RULE = ("exhaustive: (views) every two-node view over 5x5 service-list alphabets in every combination of node states "
-        "{init,working,retired} (thorough: 5 states), each probed with 16 calls; (rules) 9 route functions x 5 default modes x 18 "
+        "{init,working,retired} (thorough: 5 states), each probed with 16 calls with the node's own address unset and then 9 more "
+        "(default rule via Request/Notify/RoutePID/Route, explicit name, QuerySession, work list, two calls in flight) asked as node 1, "
+        "as node 2 and as a node the view does not list (Cluster.InitSelf), so the asking node is working / not working / hosting the "
+        "type or not / the only host; (rules) 9 route functions x 5 default modes x 18 "
         "parameters (nil, sessions, maps, explicit names incl. unknown/empty/reserved, 4 non-parameter values) through Route, Request, "
         "Notify, RoutePID; (routes) every route of 0-4 (thorough 0-5) segments over {\"\",s1,s5}; (updates) every sequence of <=2 "
         "(thorough <=4) view updates over 4 views with probes after each; (calls) 2-4 calls in flight together, one per worker service "
@@ -15,15 +18,21 @@ RULE = ("exhaustive: (views) every two-node view over 5x5 service-list alphabets
         "scheduling points around it, x 5 inner rules (reader, kind switch, panicking, routing on to type 3, absent = default) x 8 nested "
         "x 8 own parameters, alone (old ops and single-call OCalls) and 2-3 at a time. For every call of an OCalls the observation also "
         "carries, per rule invocation and nesting depth, the kind it was handed, the value p.Get returned for each key it read and the "
-        "answer of each nested Route. random: 1-45 ops, 1-4 calls per OCalls with random schedules, rules with random prefixes "
-        "(yield / read / nested call; nested calls consult rules of higher types only, so no cycles), <=4 nodes (duplicate ids/addresses "
+        "answer of each nested Route; (registers) rules that call Register: lazily installing the rule of the type they then route, "
+        "replacing / removing their own registration while running, the default function registering and unregistering, x 8 parameters, "
+        "alone and in flight; a Register by another goroutine (new rule / replacement / removal, same and other type) at every position "
+        "of the schedule of two calls whose rules stop before and after a nested call. A call that neither returns nor reaches a "
+        "scheduling point within the watchdog (3 s, 0.4 s after the first) is observed as BHang, which no model run shows; the history "
+        "ends there, the driver is rebuilt, generation stops after 3 hung histories. random: 1-45 ops, OSelf, 1-4 calls per OCalls "
+        "with random schedules incl. Register entries, rules with random prefixes (yield / read / nested call / Register; nested calls "
+        "and registrations go to higher types only, so no cycles), <=4 nodes (duplicate ids/addresses "
         "possible), states 0-5, <=4 services per node incl. malformed entries and reserved names, scripted route functions incl. "
         "panicking. Non-trivial = the history makes at least one routing decision while the view lists a service or a route function "
         "is installed; distinct = distinct op sequences.")
 TRUSTED_BASE = [
     "Coq 8.16.1 kernel + vm_compute (case evaluation, Examples, refutation witness); no native_compute",
     "hand translation node/route/route.go, node/app/{utils,serviceutils,clusterservices,cluster}.go -> C07/Model.v, measured by this correspondence run",
-    "Go harness harness/c07 (sender middleware + callback log on real NodeServices (1 driver + 4 workers) in a local protoactor system, token<->string maps, scripted route functions built from op data which record what they are handed / read / get back, token-passing scheduler for OCalls), bin/check.py JSON->Coq term printer",
+    "Go harness harness/c07 (sender middleware + callback log on real NodeServices (1 driver + 4 workers) in a local protoactor system, token<->string maps, scripted route functions built from op data which record what they are handed / read / get back, token-passing scheduler for OCalls (Model.sim is its executable model), watchdogs for calls that never return), bin/check.py JSON->Coq term printer",
     "hook node/route/verif_export.go (tag verif): VerifDefaultRoute() getter so the harness can reinstall node/app's default route",
     "modelled not verified: protoactor (Send to a PID = delivery to the actor of that address+name; checked for the local address by recording actors), "
     "Go map iteration order over service types (model returns the set of admissible directory answers, compared by membership), "
@@ -35,26 +44,34 @@ ASSUMPTIONS = [
     "scheduling point / return of a rule per step; the route layer's own work between two such steps is atomic); the harness explores "
     "interleavings at scheduling points inside route functions (AYield), one goroutine running at a time - word-level data races inside "
     "the route layer are outside both",
-    "route functions are deterministic programs over: reads of the parameter they are handed, its kind, RouteService.Route, scheduling "
-    "points (Model.prog, arbitrary continuations); rules do not consult each other in a cycle (unbounded recursion is a fatal stack "
-    "overflow in Go); the executable model follows 8 levels of nesting",
+    "route functions are deterministic programs over: reads of the parameter they are handed, its kind, RouteService.Route, "
+    "RouteService.Register, scheduling points (Model.prog, arbitrary continuations); rules do not consult each other in a cycle "
+    "(unbounded recursion is a fatal stack overflow in Go); the executable model follows 8 levels of nesting, 2000 steps per scheduler "
+    "turn, 400 turns",
+    "the route layer never makes a call wait (Model.tstep is total): a design in which Route or Register block on each other is outside "
+    "the model, and the harness reports a turn that does not end within the watchdog as a hang",
     "service names are cluster-unique and none is one of the reserved words bad_route_param / miss_route_func / no_service "
     "(cell2 logs duplicates as an error); C07_default needs both for the chosen name, C07_target needs 'the view maps the name to one pid'; "
     "without them the proven statement is the weaker 'the single send goes to some entry carrying the name the rule returned'",
-    "route functions are arbitrary total functions (name or panic) of service type and parameter; they do not mutate routing state",
+    "what a route function ANSWERS is an arbitrary total function (name or panic) of service type and parameter (Model.rfn); the only "
+    "routing state it may change is the set of registered functions, through Register",
     "an empty service type (route \".g.m\") counts as a malformed route (SplitClientRoute's marker for malformed is the empty type)",
 ]
 TECHNIQUE = ("Coq proof (executable model of Route/doRoute/RoutePID/defaultRoute/Request/Notify/QuerySession/Kick over arbitrary route functions "
              "and views; theorems by case analysis and induction over views/histories) + differential correspondence against the real "
              "route.RouteService, app.Cluster and app.Request/Notify/QuerySession/Kick on a real NodeService")
-LEVEL_TEXT = ("Machine-checked Coq theorems (36, all closed under the global context), unbounded over views, route functions, "
+LEVEL_TEXT = ("Machine-checked Coq theorems (44, all closed under the global context), unbounded over views, route functions, "
               "parameters, routes and histories: target (exactly one send, to the pid the view maps the rule's name to, nothing else), "
               "default (an instance of the type on a working node; guards unique/non-reserved name, with a refutation witness for the "
               "unguarded statement), no_service (every listed cause: no send, exactly one no-service callback / nothing), "
               "never_elsewhere, request_not_dropped, reserved_never_target, registered_wins (a panicking function does not fall back), "
               "front_* (QuerySession/Kick), view_updates (decision = function of the last view, last registrations, last default), "
-              "monitor soundness; for calls that overlap or nest, over arbitrary rule programs, pools and schedules: interleaving_frame (a "
-              "goroutine's state after any schedule = its own steps alone), eval_adequate + concurrent_calls_isolated (each call in flight "
-              "ends with the name and the view of its parameter it has when made alone), rule_sees_own_param, nested_call_is_call / "
-              "nested_call_frame, nested_result (the name is route's), schedule_irrelevant. The model follows the code repaired by hooks/C07-fix-*.patch and is tied to it by running both on "
+              "self_irrelevant (no decision reads the node's own address), registered_after(_register), "
+              "monitor soundness; for calls that overlap or nest and rules that change meanwhile, over arbitrary rule programs (reads, nested "
+              "Route, Register, scheduling points), pools and schedules incl. Register by other goroutines: interleaving_frame (a step changes "
+              "one goroutine and the registered rules only; tstep is total - no call waits for another), table_written_by_register_only, "
+              "interleaving_frame_stable (nobody registers => a goroutine's state after any schedule = its own steps alone), eval_adequate, "
+              "rule_sees_own_param (alone) and rule_sees_own_param_any_schedule (+ scheduler_turn_is_steps / scheduler_run_sees_own_param "
+              "for the harness scheduler), nested_call_is_call / nested_call_frame, nested_result (the name is route's), "
+              "decision_frame(_table). The model follows the code repaired by hooks/C07-fix-*.patch and is tied to it by running both on "
               "the same histories each run; the property monitor is additionally evaluated on the implementation's own trace.")
